@@ -204,7 +204,11 @@ func newBufferedSectionWriter(w io.WriterAt, begPos, maxBytes int64,
 			if ok {
 				buf, pos = req.buf, req.pos
 				if len(buf) > 0 {
-					nBytes, err := w.WriteAt(buf, pos)
+					var nBytes int
+					nBytes, err = w.WriteAt(buf, pos)
+					if err == nil && nBytes != len(buf) {
+						err = io.ErrShortWrite
+					}
 					if err == nil && s != nil {
 						s.reportBytesWritten(uint64(nBytes))
 					}
@@ -276,6 +280,11 @@ func (b *bufferedSectionWriter) Flush() error {
 
 func (b *bufferedSectionWriter) Stop() error {
 	if b.stopCh != nil {
+		if b.err == nil {
+			// Collect the result of the last asynchronous write.
+			lastWrite := <-b.resCh
+			b.err = lastWrite.err
+		}
 		close(b.stopCh)
 		close(b.reqCh)
 		<-b.doneCh
